@@ -11,8 +11,9 @@ faults that are decided by the first word of the instruction or by its declared 
 * `parseInst_surplus`: known opcode, the logical operands recognised but operand words left over inside the declared
   extent → `OperandExceeded(offset of the first surplus word, instruction number)`.
 
-Missing and undecodable operands (`OperandExpected`, `OperandError(..)`) are reported from inside the operand loop; which
-of them a given fault gets is decided by the correspondence check and its oracle only.
+Missing and undecodable operands (`OperandExpected`, `OperandError(..)`, …) are reported from inside the operand loop:
+`Props/C03KindOp.lean` proves that a first malformed instruction with a non-zero word count and a known opcode always gets one of
+these operand-level kinds; which of them a given operand fault gets is decided by the correspondence check and its oracle.
 -/
 namespace Rspirv.Props.C03Kind
 open Rspirv Rspirv.Model Rspirv.Model.DState Rspirv.Props.C04 Rspirv.Props.C11 Rspirv.Props.ParserSpec Rspirv.Props.ParserErr Rspirv.Props.C03
